@@ -4,5 +4,5 @@ patch=$(realpath "$1"); shift
 wt=$(mktemp -d /tmp/govc-seed-XXXXXX)
 git -C /repo worktree add --detach -q "$wt" HEAD >/dev/null 2>&1 || { echo "worktree failed"; exit 2; }
 if ! git -C "$wt" apply "$patch"; then echo "PATCH DOES NOT APPLY"; git -C /repo worktree remove --force "$wt"; exit 2; fi
-GOVC_REPO=$wt /verif/bin/govc verify "$@" 2>&1 | grep -v "^loaded\|^note" | grep "FAIL\|obligations\|ERROR" | sed "s#$wt#/repo#g" | cut -c1-220
+GOVC_REPO=$wt /verif/bin/govc verify -cache -t ${GOVC_T:-30} "$@" 2>&1 | grep -v "^loaded\|^note" | grep "FAIL\|obligations\|ERROR" | sed "s#$wt#/repo#g" | cut -c1-220
 git -C /repo worktree remove --force "$wt"; rm -rf "$wt"
